@@ -350,6 +350,34 @@ def write_checked(F, rep):
                    "process still exits 0 with truncated output" % (len(cs), fname), line_of(cs[0]), sites=len(cs))
     rep.ob("WRITE-CHECKED", "census", True, "output path of crates sylt / sylt_compiler: %d Write::write, %d Write::write_all calls" % (n_write, n_all), sites=n_write + n_all)
     rep.floor("WRITE-CHECKED", "write calls on the output path", n_write + n_all, 40)
+    # a writer that holds bytes back (BufWriter, LineWriter) delivers them when it is flushed - and reports a failure only
+    # then; dropped without an explicit flush it swallows the error (`sylt -o - prog.sy > /dev/full` exits 0 with nothing written)
+    nb = 0
+    for f2 in F.own_fns(["sylt", "sylt-bin", "sylt_compiler"]):
+        if f2["_path"].startswith("sylt::formatter") or f2["_path"].startswith("sylt::test"):
+            continue
+        body2 = fn_body(f2)
+        for c, parents in walk(body2):
+            cal = callee(c) or ""
+            if c.get("k") == "Call" and re.search(r"(BufWriter|LineWriter)", cal) and cal.split("::")[-1] in ("new", "with_capacity"):
+                nb += 1
+                holder = None
+                for p_ in reversed(parents):
+                    if p_.get("k") == "Let":
+                        bs = pat_bindings(p_["pat"])
+                        holder = bs[0]["hid"] if bs else None
+                        break
+                flushed = False
+                for m, mp in walk(body2):
+                    if m.get("k") == "MethodCall" and m["m"] in ("flush", "into_inner") and holder is not None and \
+                            any(x.get("hid") == holder for x in nodes(m["recv"], "Path")):
+                        flushed = any(q.get("k") in ("Try", "Ret") for q in mp[-4:]) or m is peel(body2.get("e") or {})
+                rep.ob("WRITE-CHECKED", "%s|buffered-writer-flushed" % last(f2["_path"], 2), flushed,
+                       "the buffered writer is flushed and the result of the flush is propagated" if flushed else
+                       "%s wraps the output in a buffering writer and never flushes it with a checked result: what is still in the "
+                       "buffer is written when the value is dropped, where an error cannot be reported - the compiler exits 0 although "
+                       "nothing reached a full or closed output" % last(f2["_path"], 2), line_of(c))
+    rep.ob("WRITE-CHECKED", "buffering-writers", True, "%d buffering writers on the output path" % nb, sites=nb)
     # the emitter's result reaches the driver: lua::generate -> Compiler::compile -> compile()
     gen = F.fn("sylt_compiler::lua::generate")
     comp = F.fn("sylt_compiler::Compiler::compile")
